@@ -4,18 +4,30 @@ from .common import TRUSTED, ASSUMPTIONS, default_nontrivial, LEVEL_NOTE, TECHNI
 
 LEVEL = "proof"
 THEOREMS = ["C06_refines", "C06_wf", "C06_outer", "C06_max_u", "C06_transpose", "C06_vacuous", "C06_dogmatic",
-            "C06_unlabelled_accepts", "C06_labelled", "C06_refines3", "C06_wf3"]
+            "C06_unlabelled_accepts", "C06_labelled", "C06_refines3", "C06_wf3",
+            "C06_candidate", "C06_candidate3", "C06_uncertainty_nonneg_gen", "C06_uncertainty_nonneg_gen3"]
 EXTRA_MODULES = [("SLV.Props.OracleSpec", ("OS_outer", "OS_product", "OS_projQ"))]
 RULE = ("prod2 / prod3 on pairs/triples of well-formed opinions (zero base rates, vacuous, dogmatic), factor sizes 2..3, dyadic grids "
         "(denominators 4..16), unlabelled (validated) and labelled (normalised) implementations, owned and OpinionRef; each pair also "
-        "with factors exchanged (cross-case: transposition); f32+f64. non-trivial = value returned")
+        "with factors exchanged (cross-case: transposition); SMALL-BASE-RATE stream: exactly well-formed dyadic factors with one "
+        "base-rate entry 2^-k (k = 8..20 in f32, 8..45 in f64; every positive joint base rate stays above machine epsilon) under a "
+        "heavy belief mass, uncertainties 2^-j or 0, the other factors dogmatic / nearly dogmatic / ordinary (sometimes with a small "
+        "base-rate entry of their own), plus non-dyadic 3-entry factors that are well-formed within the constructors' tolerance "
+        "(projection summing to 1 +- 1 ulp) and the recorded witnesses of repair abca806, both families, both arities, pairs also "
+        "exchanged; 60% of that stream is steered (rejection sampling against an emulation, in the case's precision, of the cancelling "
+        "quotient (P0*P1 - b0*b1)/(a0*a1)) to operands on which that evaluation misses the exact joint uncertainty by more than the "
+        "oracle tolerance; f32+f64. non-trivial = value returned")
 EXHAUSTIVE = {}
 nontrivial = default_nontrivial
 CROSS_GROUPS = [0]
 LEVEL_TEXT = ("Theorems for all factor sizes and rational well-formed factors (zero base rates allowed): the raw product equals an "
               "explicit closed form with u = min over cells of positive base rate of (P-B)/A, is well-formed, has outer-product base rate "
               "and projection, is maximal, transposes under exchange of factors, vacuous/dogmatic limits; the unlabelled validation "
-              "accepts the exact result and the labelled renormalisation is the identity; same for three factors. Tied to Product2/3 of "
+              "accepts the exact result and the labelled renormalisation is the identity; same for three factors. The code evaluates "
+              "each candidate in the expanded form u0(r1+u1) + r0 u1, r = b/a (three factors likewise; repair abca806): proved equal to "
+              "(P-B)/A on every cell of non-zero joint base rate (lifting lemma, no well-formedness needed), and >= 0 for all non-negative "
+              "operands whatever their sums (the cancelling form is negative on tolerance-well-formed operands: Pinned witnesses). "
+              "Tied to Product2/3 of "
               "both families by the correspondence check; predicates evaluated on the implementation's outputs.")
 
 
@@ -24,6 +36,7 @@ def cases(rng, tier):
     out = []
     for fmt in ("f64", "f32"):
         N = 600 if tier == "quick" else 20000
+        out += small_rate_cases(rng, fmt, N // 4)
         for _ in range(N):
             den = rng.choice([4, 8, 16])
             fam = rng.choice(["M", "D", "N"])
@@ -53,6 +66,29 @@ def cases(rng, tier):
                 if rng.random() < 0.15:
                     ws = [G.tiny_opinion(rng, fmt, w, n, "a") for w, n in zip(ws, ns)]
                 out.append(G.line("prod3", fmt, fam + "." + st, ns, ws[0] + ws[1] + ws[2]))
+    return out
+
+
+def small_rate_cases(rng, fmt, count):
+    """products with one small joint base rate (G.small_rate_factors) and the witnesses of repair abca806; pairs are also run with the
+    factors exchanged (transposition cross-check)"""
+    out = []
+    for wfmt, ns, ws, _ in G.PRODUCT_WITNESSES:
+        if wfmt == fmt:
+            for fam in ("M", "D", "N"):
+                out.append(G.line("prod2", fmt, fam + ".o", ns, ws[0] + ws[1]))
+    for _ in range(count):
+        arity = rng.choice([2, 2, 3])
+        # 60%: draws on which the cancelling evaluation of (P - B)/A in this precision is visibly wrong (G.cancellation_hazard)
+        ns, ws = G.small_rate_factors(rng, fmt, arity, hazard=rng.random() < 0.6)
+        fam = rng.choice(["M", "M", "D", "N"])
+        st = rng.choice(["o", "r"])
+        if arity == 2:
+            gid = CROSS_GROUPS[0]; CROSS_GROUPS[0] += 1
+            out.append((G.line("prod2", fmt, fam + "." + st, ns, ws[0] + ws[1]), ("tr", gid, 0, ns[0], ns[1])))
+            out.append((G.line("prod2", fmt, fam + "." + st, [ns[1], ns[0]], ws[1] + ws[0]), ("tr", gid, 1, ns[0], ns[1])))
+        else:
+            out.append(G.line("prod3", fmt, fam + "." + st, ns, ws[0] + ws[1] + ws[2]))
     return out
 
 
